@@ -19,6 +19,7 @@ CLAIMS = {
  "C12": ("proof", "FindConfig's postcondition is the four-step lookup order per device type for every presence combination; the walk callback is proved total under Walk's calling convention, to leave the map unchanged when a file fails to parse and to add exactly the parsed entry otherwise; LoadDeviceConfigs is proved to load each of the four directories into its own map.", "6 C12"),
  "C13": ("proof", "Panic's loop invariant gives exactly CC123 + 128 Note Offs on the current channel and nothing else; its frame leaves trackers, counters and playing state untouched; carried through invokeActionPress and handleKEYEvent.", "6 C13"),
  "C14": ("proof", "checkExitSequence returns true and signals exactly when the sequence is non-empty and all its keys are in keyTracker (loop invariant); handleKEYEvent's clauses: signal iff the press completes the sequence, and then no output, no state change, no note, no action.", "6 C14"),
+ "C20": ("proof", "contains/containsOnly (nested loops, labelled continue) are proved to test set inclusion of handler types, DetermineDeviceType is proved to be the stated function of the SET of handler types (hence order independent), Normalize's grouping phase is proved (loop invariant: every input handler is in the group of its location, groups hold only that location) together with panic-freedom of the whole function. The device-construction phase of Normalize is covered by a bounded stand-in on the real code (labelled bounded, not counted as proved).", "6 C20"),
 }
 
 NA = {
